@@ -218,6 +218,30 @@ class DB:
     def closures_of(self, defp):
         return [b for b in self.bodies.values() if b.kind == "Closure" and b.defp.startswith(defp + "::{closure")]
 
+    def serde_visitors(self, ty):
+        """(field-identifier visit_str bodies, visit_map bodies) of the hand-written Deserialize of struct `ty`, found by
+        type (wherever the visitor items live: nested in `deserialize`, hoisted to module level, in another file):
+        visit_map is the Visitor method returning Result<ty, _>; the field visitor is the one producing the key type
+        that visit_map asks for with next_key::<K>()"""
+        pat = re.compile(r"Result<(?:[A-Za-z_][A-Za-z0-9_]*::)*%s\s*," % re.escape(ty))
+        vm = [b for b in self.bodies.values() if b.name == "visit_map" and b.impl_trait and "Visitor" in b.impl_trait
+              and b.locals and pat.search(b.locals[0]["ty"])]
+        vs = []
+        for m in vm:
+            keytys = set()
+            for bb, t in m.calls():
+                c = t["callee"]
+                if c and c["name"] in ("next_key", "next_key_seed", "next_entry") and c.get("gargs"):
+                    for g in c["gargs"]:
+                        if "MapAccess" not in g and "'" not in g[:2] and g not in ("A",) and "::" in g or g[:1].isupper():
+                            keytys.add(g.replace(" ", ""))
+            for b in self.bodies.values():
+                if b.name == "visit_str" and b.impl_trait and "Visitor" in b.impl_trait and b.locals:
+                    rt = b.locals[0]["ty"].replace(" ", "")
+                    if any(("Result<" + k + ",") in rt for k in keytys) and b not in vs:
+                        vs.append(b)
+        return vs, vm
+
     def adt(self, suffix):
         """the crate's struct/enum named by the last segment of `suffix` (module-agnostic: a type moved to another
         file keeps its anchor); the qualified form only disambiguates two types of the same name"""
